@@ -1,6 +1,6 @@
 """check configuration for C17 (loaded by lib/zvprops.py)"""
 
-PROP = {'gen_tables': [],
+PROP = {'gen_tables': ['TransZio'],
  'rule': 'ops: every partition into Write calls of every stream over {\\n,a,0xff} up to length 4, of sampled longer streams (≤8 quick / ≤12 '
          'thorough, all 2^(n-1) partitions each), plus random sessions with empty writes, Syncs, level toggles and long lines; non-trivial = ≥2 '
          'writes and ≥1 newline; distinct = distinct canonical op JSON',
